@@ -698,8 +698,13 @@ def run_world(arg):
         decl.seed_catalogue(decl.RefDir(), env)
     decls, noise, probes = cfg['decls'], cfg['noise'], cfg['probes']
 
-    def amount(s):
+    def amount(s, salt=2):
+        """The same number as int, Fraction or Decimal (by probe)."""
         f = Fraction(s)
+        if salt % 3 == 0 and f.denominator == 1:
+            return int(f)
+        if salt % 3 == 1:
+            return f
         return Decimal(s) if '/' not in s else f
 
     def value_of(res):
@@ -739,7 +744,7 @@ def run_world(arg):
         need2 = form[:2] in ('uu', 'qq', 'qu', 'uq')
         if u1 is None or (need2 and u2 is None):
             return ['operand_missing'], None
-        a1, a2 = amount(p['a1']), amount(p['a2'])
+        a1, a2 = amount(p['a1'], p['id']), amount(p['a2'], p['id'] // 3)
         try:
             if form == 'uu*':
                 r = u1 * u2
